@@ -125,7 +125,7 @@ class Env:
 
     def new_target_store(self):
         self.n_target += 1
-        return self.T.memory_store("T%d" % self.n_target)
+        return self.T.memory_store("S%d" % self.n_target)
 
 
 # ----------------------------------------------------------------------------------------------
@@ -246,7 +246,11 @@ class Args:
         if name == "fill_value":
             return 7
         if name in ("min", "max"):
-            return {"min": 1, "max": 5}[name]
+            v = {"min": 1, "max": 5}[name]
+            if rng.random() < 0.3 and self.x is not None and self.dtype in ("float64", "int64"):
+                import cubed.array_api as xp      # array-valued bound (0-d, same spec as x)
+                return xp.asarray(v, dtype=self.dtype, spec=self.spec)
+            return v
         if param.default is not inspect.Parameter.empty:
             return param.default
         raise Uncovered("no table entry for required parameter %r" % name)
@@ -613,7 +617,10 @@ def observe(env, thunk):
         outcome = "declined:" + type(e).__name__
     except Exception as e:  # anything else is still only "declined" for this property
         outcome = "declined:" + type(e).__name__
-    evs = T.DET.since(m)
+    # store events are attributed by store label: I = the sweep's intermediate store, Z = the from_zarr source,
+    # S<n> = store/to_zarr targets of the sweep.  (R... = stores of the real runs: a real run that failed mid-way
+    # leaves tasks running in the executor's threads — `shutdown(wait=False)` — whose late writes are not ours.)
+    evs = [e for e in T.DET.since(m) if e[0] not in ("get", "set", "delete") or e[1][:1] in ("I", "Z", "S")]
     eff = T.effects(evs)
     executed = tripped or any(k == "execute" for k, _, _ in eff)
     store_eff = [e for e in eff if e[0] != "execute"]
@@ -777,7 +784,7 @@ def target_token(t):
 def dag_request(fp):
     """Serialise the real finalized dag for the driver; None when a target lives in an untraced store."""
     dag = fp.dag
-    ops, real_creates, real_createpred = [], None, True
+    ops, real_creates, real_createpred, empty = [], None, True, set()
     arrays_succ = set(dag.successors("arrays")) if "arrays" in dag else set()
     for n, d in dag.nodes(data=True):
         if d.get("type") != "op":
@@ -789,15 +796,18 @@ def dag_request(fp):
         nt = d["primitive_op"].num_tasks if pipeline else 0
         tg = []
         for a in dag.successors(n):
-            tok = target_token(dag.nodes[a].get("target"))
+            tgt = dag.nodes[a].get("target")
+            tok = target_token(tgt)
             if tok is None:
                 return None
             tg.append(tok)
+            if 0 in tuple(getattr(tgt, "shape", ()) or ()):
+                empty.add(tok[2:])       # zero-size array: its tasks run but there is no chunk to write
         srcs = sorted({p for a in dag.predecessors(n) if a != "arrays" for p in dag.predecessors(a)})
         ops.append("%s,%d,%d,%s,%s" % (n, 1 if pipeline else 0, nt, "+".join(tg) or "-", "+".join(srcs) or "-"))
         if pipeline and "create-arrays" in dag and n not in arrays_succ:
             real_createpred = False
-    return ";".join(ops), real_creates, real_createpred
+    return ";".join(ops), real_creates, real_createpred, empty
 
 
 def event_tokens(events):
@@ -858,7 +868,8 @@ def real_runs(env, ctx, n, with_lean):
     except Exception:
         exprgen = None
     for i in range(n):
-        istore = T.memory_store("I%d" % i)
+        mine = ("R%di" % i, "R%dt" % i)
+        istore = T.memory_store(mine[0])
         spec = cubed.Spec(intermediate_store=istore, allowed_mem="200MB", reserved_mem=0,
                           executor_name=rng.choice(["threads", "single-threaded"]))
         T.DET.reset()
@@ -873,7 +884,7 @@ def real_runs(env, ctx, n, with_lean):
                     warnings.simplefilter("ignore")
                     return thunk()
             finally:
-                tokens.extend(event_tokens(T.DET.since(m)))
+                tokens.extend(event_tokens([e for e in T.DET.since(m) if e[1] in mine]))
                 tokens.append("E")
 
         entry = rng.choice(["compute", "compute", "cubed.compute", "to_zarr", "store", "store-existing", "convert", "asarray", "cubed-key"])
@@ -897,7 +908,7 @@ def real_runs(env, ctx, n, with_lean):
             og = rng.random() < 0.7
             case["optimize_graph"] = og
             if entry == "to_zarr":
-                tgt = T.memory_store("T%d" % i)
+                tgt = T.memory_store(mine[1])
                 path = rng.choice([None, "out", "g/out"])
                 case["path"] = path
                 lazy = phase("N", lambda: cubed.to_zarr(x, tgt, path=path, compute=False), "to_zarr(compute=False)")
@@ -905,14 +916,14 @@ def real_runs(env, ctx, n, with_lean):
                 phase("N", lambda: lazy.visualize(filename=os.path.join(env.viz_dir, "r%d" % i), format="raw", optimize_graph=og), "visualize")
                 phase("X", lambda: lazy.compute(optimize_graph=og), "compute")
             elif entry in ("store", "store-existing"):
-                tgt = T.memory_store("T%d" % i)
+                tgt = T.memory_store(mine[1])
                 if entry == "store-existing":
                     T.DET.on = False
                     try:
                         tgt = zarr.create_array(store=tgt, name="pre", shape=x.shape, dtype=x.dtype, chunks=x.chunksize)
                     finally:
                         T.DET.on = True
-                    tokens.insert(0, "p:T%d/pre" % i)
+                    tokens.insert(0, "p:%s/pre" % mine[1])
                 (lazy,) = phase("N", lambda: cubed.store([x], [tgt], compute=False), "store(compute=False)")
                 fp = phase("N", lambda: lazy.plan(optimize_graph=og), "plan")
                 phase("X", lambda: lazy.compute(optimize_graph=og), "compute")
@@ -943,7 +954,7 @@ def real_runs(env, ctx, n, with_lean):
                         og = True
                         phase("X", lambda: np.asarray(x), "np.asarray")
         except DECLINE as e:
-            ctx.count({"real": case, "declined": type(e).__name__}, nontrivial=False, kind="real:declined")
+            ctx.count({"real": case, "declined": type(e).__name__}, nontrivial=False, kind="real:declined:" + type(e).__name__)
             continue
         case["steps"] = steps
         case["tokens"] = " ".join(tokens)[:1500]
@@ -968,9 +979,9 @@ _CACHE = {}
 def run_all(ctx, scale=1):
     env = Env(ctx)
     try:
-        sweep(env, ctx, rounds=ctx.budget(3, 8) * scale, viz_total=ctx.budget(8, 40) * scale)
-        programs(env, ctx, ctx.budget(60, 400) * scale, viz_total=ctx.budget(4, 20) * scale)
-        reals = real_runs(env, ctx, ctx.budget(15, 80) * scale, True)
+        sweep(env, ctx, rounds=ctx.budget(3, 14) * scale, viz_total=ctx.budget(8, 60) * scale)
+        programs(env, ctx, ctx.budget(60, 800) * scale, viz_total=ctx.budget(4, 30) * scale)
+        reals = real_runs(env, ctx, ctx.budget(15, 150) * scale, True)
         if env.uncovered:
             ctx.notes.append("uncovered public names (no argument recipe; reported, not failed): %s" % sorted(env.uncovered.items()))
         never = sorted((v, o) for v, o in env.attempted.items() if not env.accepted.get(v))
@@ -1015,7 +1026,7 @@ def corr(ctx):
             ctx.disagree("traceOk (model acceptor) = direct check of the observed store trace", case, a, want)
     ereqs = [(case, tokens, req) for case, tokens, req in reals if req is not None]
     eans = ctx.lean.drive(DRIVER, ["exec|" + r[2][0] for r in ereqs])
-    for (case, tokens, (ops, real_creates, real_createpred)), a in zip(ereqs, eans):
+    for (case, tokens, (ops, real_creates, real_createpred, empty)), a in zip(ereqs, eans):
         fields = dict(f.split("=", 1) for f in a.split("|") if "=" in f)
         model_creates = [x for x in fields.get("creates", "").split(",") if x]
         model_written = [x for x in fields.get("written", "").split(",") if x]
@@ -1043,7 +1054,7 @@ def corr(ctx):
         missing = [c for c in model_creates if c not in metas_c and c not in pre]
         if "compute again" not in case.get("steps", []) and (extra or missing):
             ctx.disagree("arrays created in the real run = finalize.creates", info, model_creates, sorted(metas_c))
-        if model_written != chunks_c:
+        if [w for w in model_written if w not in empty] != [c for c in chunks_c if c not in empty]:
             ctx.disagree("arrays written in the real run = storage targets of the model's pipeline ops", info, model_written, chunks_c)
         if fields.get("createpred") != ("1" if real_createpred else "0"):
             ctx.disagree("create-arrays precedes every pipeline node", info, fields.get("createpred"), real_createpred)
